@@ -425,7 +425,7 @@ def r7_dict_views(ctx):
             elif keyform == "ranking":
                 okk = {astx.u(x) for x in kd} == {f"{b}.ranking", "(frozenset(),)"}
             else:
-                okk = {astx.u(x) for x in kd} == {f"tuple([(c, score) for c, score in {b}.scores.items()])", "tuple()"}
+                okk = {astx.u(x) for x in kd} == {astx.A(f"tuple([(c, score) for c, score in {b}.scores.items()])"), "tuple()"}
         ctx.check(no_skip and okw and oks and okk, f, lp, f"{name}: weight (or weight/total) of every ballot accumulates under its {keyform} key", f"key={key}, weights={wdefs}",
                   f"{name}: every ballot visited={no_skip}; weight source ok={okw} ({wdefs}); first-store / += accumulate ok={oks}; key is the ballot's {keyform} content={okk}")
 
